@@ -239,6 +239,7 @@ def parent_main(pid: str, tier: str) -> int:
                 jobs.append((part, shard))
         running: list[tuple] = []
         pending = list(jobs)
+        crashed: list[tuple] = []
 
         def start(part: str, shard: int):
             out = os.path.join(tmp, f"{part.replace('@', '_')}_{shard}.json")
@@ -276,6 +277,14 @@ def parent_main(pid: str, tier: str) -> int:
                     if rc == 0 and os.path.exists(out):
                         with open(out, encoding="utf-8") as f:
                             dumps.append(json.load(f))
+                    elif rc < 0 and not part.endswith("@bc"):
+                        # the worker was killed by a signal (SIGSEGV/SIGABRT):
+                        # a compiled kernel corrupted memory. Re-run the same
+                        # shard with numba's bounds checking switched on, which
+                        # turns the bad access into an IndexError = a violation
+                        # with a proper replay file.
+                        crashed.append((part, shard, rc))
+                        queue.append((part + "@bc", shard))
                     else:
                         with open(log, encoding="utf-8") as f:
                             tail = f.read()[-6000:]
@@ -291,6 +300,15 @@ def parent_main(pid: str, tier: str) -> int:
             print("HARNESS-ERROR:", e)
         return 2
     merged = merge_dumps(dumps)
+    if crashed and not merged["violations"]:
+        for part, shard, rc in crashed:
+            print(f"HARNESS-ERROR: worker {part}/{shard} died with signal "
+                  f"{-rc} and the bounds-checked re-run found no violation")
+        return 2
+    for part, shard, rc in crashed:
+        merged["notes"].append(
+            f"worker {part}/{shard} died with signal {-rc} (memory "
+            "corruption in a compiled kernel); re-run with bounds checks")
     wall = time.monotonic() - t0
     write_evidence(pid, tier, seed, merged, modmeta, wall, nshards)
     for line in merged["known"]:
